@@ -14,6 +14,7 @@ SIZES = {
     "centi": (480, 6000),
     "sibling": (480, 6000),
     "far": (320, 4000),
+    "offscreen": (64, 640),
     "relayout": (480, 6000),
     "budget": (320, 4000),
     "direct": (480, 6000),
